@@ -5,6 +5,7 @@ Decided (E3 on tensor.symmetrize / tensor.issymmetric and the Kruskal versions):
          ravel/flatten/reshape vs. class indices enumerated by tt_ind2sub / tt_sub2ind, accumarray(index, value),
          reshape of a listing back to N-D) uses the same listing order on both sides, in both algorithm versions
   EO-1   reshape-family calls in these functions pass an order that evaluates to F (or are reviewed order-irrelevant)
+  EXACT  symmetry is decided by exact comparisons (no allclose / isclose in these functions)
   GRP    the group guards exist: modes of a group have equal sizes, groups do not overlap (guard atoms, E5)
 Not decided: averaging numerics, idempotence, agreement of the two versions, the Kruskal average itself.
 """
@@ -24,7 +25,7 @@ def check(prog: Program, res: Result, tier: str) -> None:
     res.explanation = __doc__.split("\n\n", 1)[1]
     res.assumptions = ["numpy default order of ravel/flatten/reshape is C; tt_ind2sub/tt_sub2ind default to F (checked by C17)",
                        "class `order` properties evaluate to F (EO-cls under C01)"]
-    res.floors = {"EO-2": 5, "EO-1": 7, "GRP": 3}
+    res.floors = {"EO-2": 5, "EO-1": 7, "GRP": 3, "EXACT": 4}
     for f in FUNCS:
         prog.func(f)
     sel = lambda fi: fi.short in FUNCS
@@ -44,6 +45,17 @@ def check(prog: Program, res: Result, tier: str) -> None:
                 res.bad("GRP", short, desc, f"{prog.rel(fi.path)}:{hit[0].line}", "the rejection is unconditional / detached from its test")
             else:
                 res.bad("GRP", short, desc, prog.loc(fi), "the group guard is gone")
+    # exactness: symmetry decisions compare exactly
+    for short in FUNCS:
+        fi = prog.func(short)
+        approx = [c for c in ast.walk(fi.node) if isinstance(c, ast.Call) and (E.dotted(c.func) or "").split(".")[-1] in ("allclose", "isclose")]
+        desc = "symmetry is decided by exact comparison (no tolerance)"
+        if approx:
+            res.bad("EXACT", short, desc, prog.loc(fi, approx[0]),
+                    f"`{ast.unparse(approx[0])[:90]}` accepts nearly symmetric data as symmetric: the result is then not the exact average / "
+                    "the test answers True for a tensor that is not invariant")
+        else:
+            res.ok("EXACT", short, desc, prog.loc(fi), nontrivial=False)
     fi = prog.func("tensor.tensor.issymmetric")
     # the size test of the symmetry check answers False (it does not raise)
     has = any(isinstance(n, ast.Return) and isinstance(n.value, ast.Constant) and n.value.value is False for n in ast.walk(fi.node))
